@@ -142,6 +142,31 @@ def trip_args(rng):
     return {"signal": "sigS", "value": 1, "release_value": 0, "after": rng.choice([0.0, 0.3, 5.0])}
 
 
+def second_suspender(case, pid, seed, p=0.3, sleeps=(0, 0.5)):
+    """In a share p of the worlds that have suspender s0: a second one (s1) on a signal of its own, installed right
+    after s0 - suspensions on top of each other.  Drawn from a random stream of its own, so that the rest of the case
+    does not depend on it.  Returns the function that re-targets (and sometimes flaps) the arguments of a trip."""
+    rng2 = gen.rng_for(pid, seed, "second-suspender")
+    have = "s1" in case["suspenders"]  # (base_case has installed it already)
+    two = have or ("s0" in case["suspenders"] and rng2.random() < p)
+    if two and not have:
+        case["devices"]["sigT"] = {"kind": "signal", "initial": 0}
+        case["suspenders"]["s1"] = {"cls": "SuspendBoolHigh", "signal": "sigT", "kwargs": {"sleep": rng2.choice(list(sleeps))}}
+        at = next(i for i, s in enumerate(case["script"]) if s.get("do") == "install_suspender" and s.get("sus") == "s0")
+        case["script"].insert(at + 1, {"do": "install_suspender", "sus": "s1"})
+
+    def retarget(a):
+        if two and rng2.random() < 0.5:
+            a["signal"] = "sigT"
+        if two and rng2.random() < 0.2:
+            # the signal flaps (never twice in the same instant: one device thread delivers its updates in turn)
+            a["after"] = a["after"] or 0.05
+            a["then"] = [[rng2.choice([0.05, 0.1, 0.4, 1.0]), 1], [rng2.choice([0.05, 0.2, 1.0]), 0]]
+        return a
+
+    return retarget
+
+
 def dry_run(base):
     """Fault-free run of the base case; returns (result, view, steps of the main call)."""
     dry = run_case(base)
